@@ -13,10 +13,18 @@ impl<K: KeyT> World<K> {
             case_header: header,
             line_no: 0,
             ops_since_sweep: 0,
+            cur_born: "",
         }
     }
 
     fn fail(&mut self, prop: &str, fp: &str, what: String) {
+        if !self.cur_born.is_empty() && prop != self.cur_born && self.oracle.len() < 200 {
+            let born = self.cur_born;
+            self.oracle.push(format!(
+                "{born} deserialized-object-misbehaves:{prop}:{fp} :: on an object obtained by deserialisation: {what} :: case {} ({}) line {}",
+                self.case_no, self.case_header, self.line_no
+            ));
+        }
         if self.oracle.len() < 200 {
             self.oracle.push(format!(
                 "{prop} {fp} :: {what} :: case {} ({}) line {}",
@@ -27,7 +35,7 @@ impl<K: KeyT> World<K> {
 
     fn slot(&mut self, i: usize) -> &mut Slot<K> {
         while self.slots.len() <= i {
-            self.slots.push(Slot { obj: Obj::Gone, shadow: Shadow::new() });
+            self.slots.push(Slot { obj: Obj::Gone, shadow: Shadow::new(), born: "" });
         }
         &mut self.slots[i]
     }
@@ -61,7 +69,11 @@ impl<K: KeyT> World<K> {
     pub fn sweep(&mut self) {
         self.stats.sweeps += 1;
         let mut fails: Vec<(&'static str, String, String)> = Vec::new();
+        let mut fail_born: Vec<&'static str> = Vec::new();
         for (si, slot) in self.slots.iter().enumerate() {
+            while fail_born.len() < fails.len() {
+                fail_born.push(if si > 0 { self.slots[si - 1].born } else { "" });
+            }
             let o = &slot.obj;
             if matches!(o, Obj::Gone) {
                 continue;
@@ -156,9 +168,15 @@ impl<K: KeyT> World<K> {
                 }
             }
         }
-        for (p, fp, w) in fails {
+        while fail_born.len() < fails.len() {
+            fail_born.push(self.slots.last().map(|s| s.born).unwrap_or(""));
+        }
+        let saved = self.cur_born;
+        for ((p, fp, w), b) in fails.into_iter().zip(fail_born) {
+            self.cur_born = b;
             self.fail(p, &fp, w);
         }
+        self.cur_born = saved;
     }
 
     fn intern(&mut self, si: usize, x: &[u8], stat: Option<usize>, infallible: bool, via: Option<&str>) -> String {
